@@ -1,8 +1,9 @@
 """C04 — sorted sets stay ordered; rank, range and score agree (correspondence part)."""
+import bisect
 import itertools
 import vlib
 from checks import apicheck
-from gen_api import fbits
+from gen_api import fbits, hx
 
 
 def small_sequences(depth):
@@ -90,6 +91,216 @@ def bounds_table():
     ops.append("dump")
     return ops
 
+# ---- the pointer skiplist on its own (ds/zset/skiplist.go through the VerifSL hook) ----
+NINF, PINF = float("-inf"), float("inf")
+SL_SCORES = [NINF, -2.5, -1.0, -0.0, 0.0, 1.0, 1.0, 2.0, 2.0, 3.0, 1e300, PINF]
+SL_SORTED = [NINF, -2.5, -1.0, 0.0, 1.0, 2.0, 3.0, 1e300, PINF]
+
+
+def skiplist_stream(rng, n_ops, max_members):
+    """Op lines (`sl ...`, see the protocol of the skiplist tie) for one bare skiplist. A Python-side
+    copy of the list (sorted (score, member) pairs) only steers the generation: preconditions of
+    insert (member absent) hold, removals mostly hit, ranks and ranges are near the ends."""
+    pool = [b"m%03d" % i for i in range(max_members * 2)] + [b"", b"a", b"aa", b"ab", b"aaa", b"b", b"m", b"m0"]
+    cur = []            # sorted [(score, member)]
+    where = {}          # member -> score as inserted (sign of zero kept)
+    ops = ["sl new"]
+
+    def sc():
+        return rng.choice(SL_SCORES)
+
+    def line(*toks):
+        ops.append("sl " + " ".join(str(t) for t in toks))
+
+    def absent():
+        for _ in range(8):
+            m = rng.choice(pool)
+            if m not in where:
+                return m
+        for m in pool:
+            if m not in where:
+                return m
+        return None
+
+    def present():
+        return rng.choice(cur)[1]
+
+    def other_score(s):
+        for _ in range(8):
+            t = sc()
+            if t != s:
+                return t
+        return 7.25
+
+    def drop(lo, hi):            # cur[lo:hi]
+        for _, m in cur[lo:hi]:
+            del where[m]
+        del cur[lo:hi]
+
+    def do_insert():
+        m = absent()
+        if m is None:
+            return do_remove()
+        s = sc()
+        where[m] = s
+        bisect.insort(cur, (s, m))
+        line("insert", hx(m), fbits(s))
+
+    def do_remove():
+        if cur and rng.random() < 0.85:
+            m = present()
+            s = where[m]
+            if s == 0 and rng.random() < 0.3:
+                s = -s                       # the other zero: equal in Go, the removal succeeds
+            i = bisect.bisect_left(cur, (s, m))
+            drop(i, i + 1)
+        elif cur and rng.random() < 0.5:
+            m = present()
+            s = other_score(where[m])
+        else:
+            m = absent() or b"zz"
+            s = sc()
+        line("remove", hx(m), fbits(s))
+
+    def do_getrank():
+        r = rng.random()
+        if cur and r < 0.5:
+            m = present()
+            s = where[m]
+        elif cur and r < 0.75:
+            m = present()
+            s = other_score(where[m])
+        else:
+            m = absent() or b"zz"
+            s = sc()
+        line("getRank", hx(m), fbits(s))
+
+    def do_getbyrank():
+        n = len(cur)
+        r = rng.choice([0, 1, n, n + 1, rng.randint(-1, n + 2), rng.randint(-1, n + 2)])
+        line("getByRank", r)
+
+    def bounds():
+        r = rng.random()
+        if r < 0.45:
+            a = b = rng.choice(SL_SORTED)
+        elif r < 0.75:
+            i = rng.randrange(len(SL_SORTED) - 1)
+            a, b = SL_SORTED[i], SL_SORTED[i + 1]
+        elif r < 0.80:
+            a, b = NINF, PINF
+        else:
+            a, b = sc(), sc()                # includes min > max
+        if a == 0 and rng.random() < 0.5:
+            a = -0.0
+        if b == 0 and rng.random() < 0.5:
+            b = -0.0
+        return a, b
+
+    def do_range_query(name):
+        a, b = (sc(), sc()) if rng.random() < 0.5 else bounds()
+        line(name, fbits(a), fbits(b))
+
+    def sim_remove_range(a, b, limit, mode):
+        i = 0
+        while i < len(cur) and (cur[i][0] <= a if mode & 1 else cur[i][0] < a):
+            i += 1
+        j = i
+        while j < len(cur) and (cur[j][0] < b if mode & 2 else cur[j][0] <= b):
+            j += 1
+            if limit > 0 and j - i == limit:
+                break
+        drop(i, j)
+
+    def do_remove_range(a=None, b=None, limit=None, mode=None):
+        if a is None:
+            a, b = bounds()
+        if limit is None:
+            limit = rng.choice([0, 0, 0, 1, 2, 5, -1])
+        if mode is None:
+            mode = rng.choice([0, 0, 0, 1, 2, 3])
+        sim_remove_range(a, b, limit, mode)
+        line("removeRange", fbits(a), fbits(b), limit, mode)
+
+    def do_remove_rank(start=None, stop=None):
+        n = len(cur)
+        if start is None:
+            k = rng.choice([1, 1, 2, 3])
+            start, stop = rng.choice([
+                (1, k), (n - k + 1, n), (0, 2), (rng.randint(1, n + 1), rng.randint(-1, n)),
+                (n + 1, n + 3), (n, n + 5), (-3, 1), (rng.randint(1, max(1, n)),) * 2,
+            ])
+            if start == stop and rng.random() < 0.5:
+                stop = start + k - 1
+        lo = max(start, 1)
+        if stop >= lo:
+            drop(lo - 1, stop)
+        line("removeRangeByRank", start, stop)
+
+    def burst():
+        # empty the list from both ends, then look at the empty list
+        for _ in range(12):
+            if not cur:
+                break
+            n = len(cur)
+            k = n // 4 + 1
+            r = rng.randrange(4)
+            if r == 0:
+                do_remove_rank(1, k)
+            elif r == 1:
+                do_remove_rank(n - k + 1, n)
+            elif r == 2:
+                do_remove_range(NINF, cur[min(k, n - 1)][0], 0, rng.randrange(4))
+            else:
+                do_remove_range(cur[max(0, n - 1 - k)][0], PINF, 0, rng.randrange(4))
+        if cur:
+            if rng.random() < 0.5:
+                do_remove_range(NINF, PINF, 0, 0)
+            else:
+                do_remove_rank(rng.choice([0, 1]), len(cur) + rng.randrange(3))
+        for f in rng.sample([do_getrank, do_getbyrank, do_remove, lambda: do_range_query("getFirstInRange"),
+                             lambda: do_range_query("getLastInRange"), lambda: do_range_query("hasInRange"),
+                             do_remove_range, do_remove_rank], 4):
+            f()
+        line("dump")
+
+    growing = True
+    target = max_members
+    next_burst = rng.randint(250, 350) + 3 * max_members      # latest; pulled in once the list has grown
+    while len(ops) < n_ops:
+        if len(ops) >= next_burst:
+            burst()
+            growing = True
+            next_burst = len(ops) + rng.randint(250, 350) + 3 * max_members
+            continue
+        n = len(cur)
+        if growing and n >= max_members * 9 // 10:
+            growing = False
+            next_burst = min(next_burst, len(ops) + rng.randint(250, 350))      # churn, then empty it
+        if not growing and rng.random() < 0.01:
+            target = rng.randint(max(1, max_members // 3), max_members)
+        if n >= max_members:
+            w_ins = 0
+        elif growing:
+            w_ins = 120
+        elif n >= target:
+            w_ins = 10
+        else:
+            w_ins = 40
+        narrow = growing or n < max_members // 2
+        acts = [(w_ins, do_insert), (36 if n >= max_members else 18, do_remove), (8, do_getrank), (5, do_getbyrank),
+                (2, lambda: do_range_query("hasInRange")), (4, lambda: do_range_query("getFirstInRange")),
+                (4, lambda: do_range_query("getLastInRange")),
+                (4, (lambda: do_remove_range(limit=rng.choice([1, 1, 2, 5]))) if narrow and rng.random() < 0.7 else do_remove_range),
+                (4, do_remove_rank), (1, lambda: line("dump"))]
+        x = rng.random() * sum(w for w, _ in acts)
+        for w, f in acts:
+            x -= w
+            if x < 0:
+                f()
+                break
+    return ops[:n_ops]
+
 
 def run(ctx, proofs_ok):
     quick = ctx.tier == "quick"
@@ -107,7 +318,16 @@ def run(ctx, proofs_ok):
     if ctx.violations:
         return
     # the command layer (argument text, option words, replies) of the same families over the network protocol
-    vlib.correspond_stream(ctx, vlib.build_harness(ctx), bounds_table(), "bounds", "every by-score command x inclusive / exclusive marks on either bound x bounds exactly on members' scores (network protocol)")
+    h = vlib.build_harness(ctx)
+    # the pointer skiplist on its own against Model/Skiplist: the structure itself, not only the answers
+    sizes = [200, 60, 12, 200] if quick else [200, 60, 12, 200, 30, 5, 400, 100, 12, 60, 200, 2]
+    for i, mm in enumerate(sizes):
+        ops = skiplist_stream(ctx.rng, 900 if quick else 4000, mm)
+        if vlib.correspond_stream(ctx, h, ops, f"skiplist-{i}", "pointer skiplist: whole-structure comparison after every operation (levels, spans, backward, tail) against Model/Skiplist"):
+            break
+    if ctx.violations:
+        return
+    vlib.correspond_stream(ctx, h, bounds_table(), "bounds", "every by-score command x inclusive / exclusive marks on either bound x bounds exactly on members' scores (network protocol)")
     if ctx.violations:
         return
     apicheck.run_resp_streams(ctx, [
